@@ -347,7 +347,7 @@ ADDED8 = {
     'C02': ' D16: a segment override in SIZE PTR seg:[..] is dropped only when every encoding of the address has that segment as its default (p_ptrformula_2 evaluated on segment x address shape, ebp / esp as base, as scaled index, beside another unscaled register).',
     'C03': ' D14: the size _dis gives the memory operand of every /digit row is accepted by check_size_modif for the modifiers of the same row (both evaluated; 185 row variants).',
     'C04': ' D12 also evaluates shld / shrd with one register named twice.',
-    'C06': ' D16: mpool / eval_abs interpreted from their source (with the node classes and the simplifier) on 28 instruction histories - cells read at their own width, narrower, wider, from the middle, across cells, through constant and symbolic addresses, constants through every shift / rotate evaluator: registers and probed cells, valued on three initial states, equal the concrete byte-level execution of the history.',
+    'C06': ' D16: mpool / eval_abs interpreted from their source (with the node classes and the simplifier) on 30 instruction histories - cells read at their own width, narrower, wider, from the middle, across cells, through constant and symbolic addresses, constants through every shift / rotate evaluator: registers and probed cells, valued on three initial states, equal the concrete byte-level execution of the history.',
     'C07': ' D17: the same machine interpretation (shared with C06.D16) on histories with stores that cover, split or abut earlier stores, reads between stores, one address at two widths, parallel assignments, an address register updated between store and read.',
     'C08': ' D10 also lifts every MMX/SSE reg, r/m row with one register named twice, following the dispatch of get_instr_expr_args per operand identity: the register must be read unless the opcode is a dependency-breaking idiom (pxor, pandn, psub*, pcmpgt*, pcmpeq*, xorps/pd, andnps/pd: table keyed by opcode).',
     'C09': ' D16: branch operands in AT&T syntax - the marks the grammar actions `argument : address` / `argument : TIMES address` leave (evaluated) and what mnemo_from_att makes of them for call / jmp / calll / jmpl / jcc / loop: a plain address is the destination, a starred address stays a 32-bit memory operand. D15 also: the AT&T text of a direct branch carries no `$`.',
